@@ -75,11 +75,11 @@ def postOp : Handler := fun req => do
 
 def refOf (j : Json) : Ref := { to := charsD j "to", map := boolD j "map", vec := boolD j "vec" }
 def fldOf (j : Json) : Fld :=
-  { name := charsD j "name", refs := (listD j "refs").map refOf, nested := boolD j "nested", len := boolD j "len", sep := boolD j "sep", sepStr := boolD j "sepStr" }
+  { name := charsD j "name", refs := (listD j "refs").map refOf, nested := boolD j "nested", len := boolD j "len", sep := boolD j "sep", sepStr := boolD j "sepStr", dur := boolD j "dur" }
 def itemOf (j : Json) : Item :=
   { file := charsD j "file", kind := charsD j "kind", name := charsD j "name", vis := charsD j "vis", ser := boolD j "ser", de := boolD j "de",
     val := boolD j "val", bare := namesD j "bare", fields := (listD j "fields").map fldOf, variants := namesD j "variants",
-    evstream := boolD j "evstream", intoResp := boolD j "intoResp", params := namesD j "params", bytesBody := boolD j "bytesBody" }
+    evstream := boolD j "evstream", intoResp := boolD j "intoResp", params := namesD j "params", bytesBody := boolD j "bytesBody", optBody := boolD j "optBody" }
 
 def objLists (j : Json) : List (Comp.Name × List Comp.Name) :=
   match j.getObj? with
@@ -87,7 +87,7 @@ def objLists (j : Json) : List (Comp.Name × List Comp.Name) :=
   | .error _ => []
 
 def modOf (inp dig : Json) : Mod :=
-  { mode := charsD inp "mode", schemas := namesD inp "schemas", items := (listD dig "items").map itemOf,
+  { mode := charsD inp "mode", visFile := charsD (fieldD inp "cfg" Json.null) "vis" == "file".toList, schemas := namesD inp "schemas", items := (listD dig "items").map itemOf,
     imports := objLists (fieldD dig "imports" Json.null), mentions := objLists (fieldD dig "mentions" Json.null) }
 
 def errOf (j : Json) : RErr :=
@@ -105,6 +105,9 @@ def violStr : Viol → String
   | .sepNonString it => s!"{String.ofList it}: StringWithSeparator<_, String> on a Vec whose element type is not String"
   | .evstreamJson it => s!"{String.ofList it}: IntoResponse wraps an EventStream payload in axum::Json"
   | .serverBytesBody it => s!"server handler {String.ofList it} extracts the body as axum::body::Bytes but the request struct's body member is Vec<u8>"
+  | .serverOptBody it => s!"server handler {String.ofList it} extracts an optional body as Option<String|Form|Bytes>, which is no axum extractor"
+  | .serverDurationHeader it => s!"{String.ofList it}: a chrono::Duration header member is read with str::parse, but TimeDelta has no FromStr"
+  | .aliasCycle it => s!"type alias {String.ofList it} expands to itself"
   | .missingImport n => s!"derive({String.ofList n}) is used unqualified but not imported"
 
 def whyOf (m : Mod) : String := ", ".intercalate ((violations m).map violStr |>.take 4)
